@@ -3,3 +3,7 @@ import Properties.C18
 #print axioms Hive.C18.plugs_never_freed_in_queue_phase
 #print axioms Hive.C18.charging_needs_free_plug
 #print axioms Hive.C18.fifo
+#print axioms Hive.C18.fifo_at
+#print axioms Hive.C18.fifo_enabled
+#print axioms Hive.queue_turn_succeeds
+#print axioms Hive.concrete_envCongr
